@@ -17,7 +17,9 @@ RULE = ("generated generator bodies (actions spanning yields, logging, try/excep
         "another exception, nested decorated or plain sub-generators via `yield from` or manual iteration, return values, raised "
         "exceptions) are wrapped with eliot_friendly_generator_function; 1-4 such generators are driven alternately by a generated "
         "script over next / send(v) / throw(E) / close (also before start and after exhaustion), each step run under one of several "
-        "surrounding driver actions (which may be finished between steps while generators started in them are suspended), under no action, or on a fresh thread. Probes: inside the body after every resumption "
+        "surrounding driver actions (which may be finished between steps while generators started in them are suspended), under no action, or on a fresh thread. Generators are created inside one driver action and first resumed inside another; half of them end with a yield "
+        "written directly in the generator function (no `yield from` in between) whose handler may answer a thrown GeneratorExit with a return "
+        "value or another yield. Probes: inside the body after every resumption "
         "current_action() IS the top of the generator's own shadow stack (action current at first resumption + actions entered "
         "since); in the driver after every step it IS what it was before. Differential: the same script on the UNDECORATED generator "
         "must give the same trace of yielded values, received values, thrown-in and raised exception objects, close() behaviour and "
@@ -230,6 +232,28 @@ def make_genfunc(ops, mon, label, decorated, ret=None):
                 mon.problems.append("%s: at first resumption current_action() is nid %r, the driver's action was nid %r" % (label, mon.nid_of(base), mon.nid_of(exp)))
         stack = [base]
         r = yield from run_ops(ops, stack)
+        epi = getattr(body, "_epilogue", None)
+        if r is None and epi is not None:
+            # a yield written directly in the generator function (no `yield from` in between, which treats a thrown GeneratorExit
+            # specially): what is thrown in here can be caught and answered with a return value or with another yield
+            try:
+                got = yield ("y", epi["val"])
+                mon.trace.append((label, "recv", mon.sent.get(id(got), got) if isinstance(got, BaseException) else got))
+            except BaseException as e:
+                cls = CATCH.get(epi.get("catch"))
+                if cls is None or not isinstance(e, cls):
+                    raise
+                mon.trace.append((label, "caught", mon.sent.get(id(e), type(e).__name__)))
+                mon.probe(base, "%s after catching at its last yield" % label)
+                if epi["then"] == "reraise":
+                    raise
+                if epi["then"] == "return":
+                    return ("r", epi["val"])
+                if epi["then"] == "raise_other":
+                    raise excs.MidUserError("other %s" % epi["val"])
+                got = yield ("y2", epi["val"])
+                mon.trace.append((label, "recv", mon.sent.get(id(got), got) if isinstance(got, BaseException) else got))
+            mon.probe(base, "%s after its last yield" % label)
         mon.probe(base, "%s before returning" % label)
         if r is None and ret is not None:
             return ("r", ret)
@@ -254,7 +278,7 @@ def make_genfunc(ops, mon, label, decorated, ret=None):
 # --------------------------------------------------------------------------- one execution (decorated or not)
 
 
-def execute(bodies, script, decorated, tape):
+def execute(bodies, script, decorated, tape, create_ctxs=None, epilogues=None):
     mon = Mon(decorated)
     drv = []
     # surrounding driver actions
@@ -266,8 +290,11 @@ def execute(bodies, script, decorated, tape):
     funcs = []
     for gi, ops in enumerate(bodies):
         f = make_genfunc(ops, mon, "g%d" % gi, True)
+        f._body._epilogue = epilogues[gi] if epilogues else None
         funcs.append(f)
-        gens.append(f())
+        # the generator object may be created inside one action and first resumed inside another: what counts is the first resumption
+        where = create_ctxs[gi] if create_ctxs else None
+        gens.append(f() if where is None else drv[where].run(f))
     started = [False] * len(gens)
     sent_objs = {}
 
@@ -368,9 +395,12 @@ def one(seed, i, res):
     rec = Recorder(tape, "rec")
     add_destinations(rec)
     try:
-        mon_u = execute(bodies, script, False, tape)
+        create_ctxs = [rng.choice([None, None, 0, 1, 2]) for _ in range(ngen)]
+        epilogues = [({"val": ids(), "catch": rng.choice(list(CATCH) + [None]), "then": rng.choice(["continue", "return", "return", "reraise", "raise_other"])}
+                      if rng.random() < 0.5 else None) for _ in range(ngen)]
+        mon_u = execute(bodies, script, False, tape, create_ctxs, epilogues)
         mark = len(tape.entries)
-        mon_d = execute(bodies, script, True, tape)
+        mon_d = execute(bodies, script, True, tape, create_ctxs, epilogues)
     finally:
         remove_destination(rec)
     problems = list(mon_d.problems)
